@@ -207,8 +207,11 @@ def write_wkt(
         The path where the geometry should be written to.
     """
     with open(path, 'w') as f:
-        # The default rounding_precision is 6 decimal places, which moves vertices
-        f.write(shapely.to_wkt(_to_multipolygon(dataset), rounding_precision=-1))
+        # The default rounding_precision is 6 decimal places, which moves vertices.
+        # -1 ('full precision') still writes 16 significant digits only,
+        # one short of what some doubles need. Asking for more decimal places
+        # than a double can hold makes GEOS write the shortest exact representation.
+        f.write(shapely.to_wkt(_to_multipolygon(dataset), rounding_precision=20))
 
 
 def write_wkb(
